@@ -51,6 +51,16 @@ THEOREMS = [
     "HedVerif.C09.gather_mismatch_reported",
     "HedVerif.C09.gather_overwrite_counterexample",
     "HedVerif.C09.sort_perm",
+    "HedVerif.C09.sortN_idem",
+    "HedVerif.C09.sortG_idem",
+    "HedVerif.C09.sortG_eraseL",
+    "HedVerif.C09.newEntry_stored",
+    "HedVerif.C09.sortG_perm_eqv_partial",
+    "HedVerif.C09.sortG_eq_perm",
+    "HedVerif.C09.defexpand_accept_sound",
+    "HedVerif.C09.gather_roundtrip_step",
+    "HedVerif.C09.gather_roundtrip",
+    "HedVerif.C09.newEntry_valueFree",
     "HedVerif.C09.sortG_perm_partial",
     "HedVerif.C09.sortG_perm_needs_hypothesis",
     "HedVerif.C09.defexpand_perm_partial",
